@@ -145,7 +145,7 @@ package linkedlist
 //@     invariant lsum_unfold(heap(node.next), heap(node.buf), llb.head, len(llb.bs) + 1) && cum == lsm(llb, len(llb.bs))
 //@     invariant maxBytes == peekmax(old(maxBytes)) && (len(llb.bs) > 0 ==> (lsum_unfold(heap(node.next), heap(node.buf), llb.head, len(llb.bs)) && lsm(llb, len(llb.bs) - 1) < maxBytes && cum < maxBytes))
 //@     invariant forall k int :: 0 <= k && k < len(llb.bs) ==> llb.bs[k] == lnn(llb, k).buf
-//@     invariant sameback(llb.bs)
+//@     invariant sameback(llb.bs) && (iter != nil ==> len(llb.bs) < llb.size)
 
 // PeekWithBytes(maxBytes, a, b) (its only caller passes the two parts of the ring in front of the list): the non-empty
 // ones of a, b in this order, then the slices of the first m chunks as for Peek, the threshold counting a and b too.
@@ -163,7 +163,9 @@ package linkedlist
 //@   ensures[second] len(bs[1]) > 0 && (len(bs[0]) == 0 || len(bs[0]) < peekmax(maxBytes)) ==> (len(result) >= pwn(bs, 1) && result[ne(bs[0])] == bs[1])
 //@   ensures[early] early0(bs, maxBytes) ==> len(result) == 1
 //@   ensures[early2] early1(bs, maxBytes) ==> len(result) == pwn(bs, 1)
-//@   ensures[chunks] !early0(bs, maxBytes) ==> pwn(bs, 1) <= len(result) && len(result) - pwn(bs, 1) <= llb.size && (forall q int :: pwn(bs, 1) <= q && q < len(result) ==> result[q] == lnn(llb, q - pwn(bs, 1)).buf)
+//@   ensures[chunks.lo] !early0(bs, maxBytes) ==> pwn(bs, 1) <= len(result)
+//@   ensures[chunks.hi] !early0(bs, maxBytes) ==> len(result) - pwn(bs, 1) <= llb.size
+//@   ensures[chunks] !early0(bs, maxBytes) ==> (forall q int :: pwn(bs, 1) <= q && q < len(result) ==> result[q] == lnn(llb, q - pwn(bs, 1)).buf)
 //@   ensures[enough] (!early0(bs, maxBytes) && !early1(bs, maxBytes)) ==> len(result) - pwn(bs, 1) == llb.size || pw0(bs, 1) + lsm(llb, len(result) - pwn(bs, 1)) >= peekmax(maxBytes)
 //@   ensures[minimal] (!early0(bs, maxBytes) && len(result) - pwn(bs, 1) > 0) ==> pw0(bs, 1) + lsm(llb, len(result) - pwn(bs, 1) - 1) < peekmax(maxBytes)
 //@   ensures[kept] lsame(llb) && heap(node.next) == old(heap(node.next)) && heap(node.buf) == old(heap(node.buf))
@@ -184,6 +186,7 @@ package linkedlist
 //@     invariant (len(bs[1]) > 0) ==> llb.bs[ne(bs[0])] == bs[1]
 //@     invariant sameback(llb.bs) && allocated(bs.base) && bs.base != llb.bs.base && pw0(bs, 1) < maxBytes && bs[0] == old(bs[0]) && bs[1] == old(bs[1])
 //@     invariant len(bs[0]) < maxBytes && len(bs[0]) + len(bs[1]) < maxBytes
+//@     invariant iter != nil ==> len(llb.bs) - pwn(bs, 1) < llb.size
 
 //@ func Buffer.Reset
 //@   props C19
